@@ -218,7 +218,7 @@ structure Node where
   graph : String
   deadline : Int
   finish : Int
-  deriving Repr, Inhabited
+  deriving Repr, Inhabited, DecidableEq
 
 structure Inst where
   now : Int
@@ -546,9 +546,13 @@ def Inst.wfChains (I : Inst) : Bool :=
 
 /-- No worker has two resource entries of one name. -/
 def Inst.wfSingleEntry (I : Inst) : Bool :=
-  I.workers.all (fun w => (w.res.map (fun e => e.name)).eraseDups.length == w.res.length)
+  I.workers.all (fun w => w.res.all (fun e => (w.res.filter (fun e' => e'.name == e.name)).length == 1))
 
-def Inst.wf (I : Inst) : Bool := I.wfNames && I.wfChains && I.wfSingleEntry
+/-- `Resources` invariant: no more available than there is. -/
+def Inst.wfAvail (I : Inst) : Bool :=
+  I.workers.all (fun w => w.res.all (fun e => decide (e.avail ≤ e.total)))
+
+def Inst.wf (I : Inst) : Bool := I.wfNames && I.wfChains && I.wfSingleEntry && I.wfAvail
 
 end ErdosVerif.Z3m
 
